@@ -8,7 +8,7 @@ def check(tier, seed):
     return G.generic_check(PID, "exploration", tier, seed, coq=False,
         rule="random games (corpus incl. FENs with en-passant squares and without castling field + random placements); after every move all incremental getters are compared with a fresh position built from the current FEN and with sums of the published per-piece values over the board; the key is checked to be a function of (placement, side, rights, ep) across all positions seen in the run (different histories, FEN vs play) and different positions to have different keys; distinct = distinct Zobrist keys",
         streams=[dict(name="incremental_monitor", kind="monitor", shards=lambda t: 8,
-                      args=lambda t, s, sh, path: ["pos-monitor", 1500 if q else 20000, s * 1000 + sh, 1],
+                      args=lambda t, s, sh, path: ["pos-monitor", 1500 if t == "quick" else 20000, s * 1000 + sh, 1],
                       violation_kinds=["incremental-differs-from-fresh", "incremental-differs-from-recomputed", "same-position-different-key",
                                        "different-positions-same-key", "own-fen-rejected"])])
 
